@@ -503,12 +503,16 @@ def build_cases(rnd, tier):
 
 
 def cases_of(ctx, pools):
+    """Every instance with compact=False; with compact=True (and compact deserialization on) for EVERY single-field
+    class -- whether or not it is a wrapper in typedpy's sense: for the others the compact flag must change nothing --
+    and for every fourth instance of the other classes."""
     cases = []
+    n = 0
     for c in ctx.asts:
         for kw, x in pools.get(c["name"], []):
             cases.append({"ast": c, "kw": kw, "x": x, "compact": False})
-            resolved = ctx.resolved(c["name"])
-            if len(c["fields"]) == 1 and resolved["required"] == [c["fields"][0]["name"]] and not resolved["additional"]:
+            n += 1
+            if len(c["fields"]) == 1 or n % 4 == 0:
                 cases.append({"ast": c, "kw": kw, "x": x, "compact": True})
     return cases
 
